@@ -115,9 +115,6 @@ func recvKey(name string) (recv, short string) {
 func (p *Program) WriteBaseline(path string) error {
 	b := Baseline{Structs: p.structTable(), Funcs: map[string]string{}}
 	for name, fn := range p.Funcs {
-		if strings.Contains(name, "$") {
-			continue
-		}
 		b.Funcs[name] = sigString(p, fn)
 	}
 	data, err := json.MarshalIndent(b, "", " ")
@@ -229,6 +226,9 @@ func (p *Program) funcAliases(b *Baseline, current map[string]*ssa.Function) map
 	missing := map[key][]string{}
 	fresh := map[key][]string{}
 	for name, sig := range b.Funcs {
+		if strings.Contains(name, "$") {
+			continue // function literals are matched per parent (closureAliases)
+		}
 		if _, ok := current[name]; !ok {
 			r, _ := recvKey(name)
 			missing[key{r, sig}] = append(missing[key{r, sig}], name)
@@ -249,5 +249,42 @@ func (p *Program) funcAliases(b *Baseline, current map[string]*ssa.Function) map
 		}
 	}
 	sort.Strings(p.aliases)
+	return out
+}
+
+
+// closureAliases: the literals of one function are named after the local
+// variable they are bound to ("(*Raft).electSelf$askPeer"); renaming that
+// variable must not read as a missing anchor. Within one parent, a baseline
+// literal name that is gone and a new literal name of the same signature are
+// the same literal when the pairing is unique.
+func (p *Program) closureAliases(b *Baseline, parent string, children map[string]*ssa.Function) map[string]string {
+	out := map[string]string{}
+	if b == nil {
+		return out
+	}
+	prefix := parent + "$"
+	missing := map[string][]string{}
+	for name, sig := range b.Funcs {
+		if !strings.HasPrefix(name, prefix) || strings.Contains(name[len(prefix):], "$") {
+			continue
+		}
+		if _, ok := children[name]; !ok {
+			missing[sig] = append(missing[sig], name)
+		}
+	}
+	fresh := map[string][]string{}
+	for name, fn := range children {
+		if _, ok := b.Funcs[name]; !ok {
+			fresh[sigString(p, fn)] = append(fresh[sigString(p, fn)], name)
+		}
+	}
+	for sig, ms := range missing {
+		fs := fresh[sig]
+		if len(ms) == 1 && len(fs) == 1 {
+			out[fs[0]] = ms[0]
+			p.aliases = append(p.aliases, fmt.Sprintf("function literal %s is the baseline's %s (renamed)", fs[0], ms[0]))
+		}
+	}
 	return out
 }
